@@ -73,6 +73,8 @@ fn build_world(cwd: &Path) {
     std::fs::write(cwd.join("t/f1"), b"hello").unwrap();
     std::fs::write(cwd.join("t/f2"), b"").unwrap();
     std::fs::write(cwd.join("t/d/g"), b"xy").unwrap();
+    // a long name: patterns with several stars or nested repetition make a backtracking matcher work hard on it
+    std::fs::write(cwd.join("t/e").join("a".repeat(100)), b"").unwrap();
     std::os::unix::fs::symlink("f1", cwd.join("t/l")).unwrap();
     std::os::unix::fs::symlink("nowhere", cwd.join("t/dl")).unwrap();
     std::fs::write(cwd.join("ref"), b"r").unwrap();
@@ -366,6 +368,9 @@ pub fn run_prop(ctx: &Ctx, sink: &mut Sink) {
         vec!["-files0-from", "names0"], vec!["-files0-from", "missing"], vec![".", "-files0-from", "names0"], vec![],
         vec!["t", "-regextype", "posix-extended", "(", "-regex", "t/(f|d).*", ")"], vec!["t", "(", "-regextype", "posix-extended", ")", "-regex", "t/(f|d).*"],
         vec!["t", "-regex", "t/(f|d).*", "-regextype", "posix-extended"],
+        // well-formed patterns on which a backtracking matcher gives up on the 100-character name
+        vec!["t", "-name", "*a*a*a*a*a*b"], vec!["t", "-regextype", "posix-extended", "-regex", ".*/(a|aa)+b"],
+        vec!["t", "-iname", "*A*a*A*a*A*b", "-o", "-print"], vec!["t", "-path", "*a*a*a*a*a*a*b"],
     ];
     for s in &shapes {
         let args: Vec<String> = s.iter().map(|x| x.to_string()).collect();
